@@ -253,6 +253,31 @@ pub fn run(tier: Tier, seed: u64) -> i32 {
     }
     report.count("fill_and_position_strings", fills);
 
+    // (4b) every ordered PAIR of characters from printable ASCII plus the neighbours of its borders, adjacent,
+    //      at the start / middle / end of a 16-byte string and alone as a 2-byte string
+    let mut pair_alpha: Vec<char> = (0x20u8..=0x7E).map(|b| b as char).collect();
+    pair_alpha.extend(['\u{1f}', '\u{7f}', '\u{80}', 'é']);
+    let pair_strings = AtomicU64::new(0);
+    pair_alpha.par_iter().for_each(|&c1| {
+        let mut n = 0u64;
+        for &c2 in &pair_alpha {
+            let pair: String = [c1, c2].iter().collect();
+            check_fast(&report, &pair);
+            n += 1;
+            if pair.len() == 2 {
+                for p in [0usize, 7, 14] {
+                    let mut v = vec![b'm'; 16];
+                    v[p] = c1 as u8;
+                    v[p + 1] = c2 as u8;
+                    check_fast(&report, std::str::from_utf8(&v).unwrap());
+                    n += 1;
+                }
+            }
+        }
+        pair_strings.fetch_add(n, Ordering::Relaxed);
+    });
+    report.count("adjacent_pair_strings", pair_strings.load(Ordering::Relaxed));
+
     // (5) ==, cmp, Hash agree with the normalised texts for all pairs of a ~2000 element set
     let mut set: Vec<String> = small.iter().filter(|s| normalize(s).is_ok()).take(1500).cloned().collect();
     for i in 0..500u32 {
@@ -297,7 +322,7 @@ pub fn run(tier: Tier, seed: u64) -> i32 {
         report.require(&format!("class_{name}"));
         report.count(&format!("class_{name}"), classes[i].load(Ordering::Relaxed));
     }
-    let total = evals.load(Ordering::Relaxed) + small.len() as u64 + limit_strings.len() as u64 + fills + pair_cases.load(Ordering::Relaxed);
+    let total = pair_strings.load(Ordering::Relaxed) + evals.load(Ordering::Relaxed) + small.len() as u64 + limit_strings.len() as u64 + fills + pair_cases.load(Ordering::Relaxed);
     report.set("evaluations", json!(total));
     report.set("distinct_nontrivial", json!(evals.load(Ordering::Relaxed) - classes[0].load(Ordering::Relaxed).min(evals.load(Ordering::Relaxed)) + small.len() as u64));
     report.set("rule", json!("strings are enumerated (every Unicode scalar x every position x every byte length 1..=17; every string of <=5 chars over a 12-symbol alphabet; every multi-byte string of byte length 13..=20 over {a,e-acute,euro,emoji}); all inputs distinct by construction; non-trivial = input that must be rejected, or contains a character that must be changed or is non-letter (everything except all-'a' fills); counted as cases whose expected result is an error plus the small-alphabet set"));
